@@ -28,6 +28,7 @@ func execute(lines []string, drv *hx.Driver, seed uint64) (res outcome) {
 	res.flags = map[string]int{}
 	var r *rig
 	var cr *cacheRig
+	var nr *naiveRig
 	var ref *refNode
 	opts := map[string]string{}
 	expectedBlobs := map[string]string{}
@@ -183,6 +184,74 @@ func execute(lines []string, drv *hx.Driver, seed uint64) (res outcome) {
 			expectedBlobs[casKeyOf(hash, size)] = data
 			if !tell(line) {
 				return
+			}
+		case "nmerge": // nmerge <dig> : eager merge on a real directory (monitor only)
+			if len(w) != 2 {
+				continue
+			}
+			h, sz, ok := untokDig(w[1])
+			if !ok || !refDigestOK(&remoteexecution.Digest{Hash: h, SizeBytes: sz}, r.hashLen) {
+				continue
+			}
+			if nr == nil {
+				var err error
+				maxFiles := 1000
+				if opts["hlmax"] != "" {
+					maxFiles, _ = strconv.Atoi(opts["hlmax"])
+				}
+				nr, err = newNaiveRig(r, opts["hardlink"] == "1", maxFiles)
+				if err != nil {
+					res.invalid = true
+					return
+				}
+				defer nr.close()
+			}
+			for k := range r.cas.failing {
+				delete(r.cas.failing, k)
+			}
+			res.steps++
+			out, complaint := nr.merge(r, h, sz)
+			res.flags["naive-merge-"+out]++
+			if complaint != "" {
+				res.monitor = abbreviate(line) + ": " + complaint
+				return
+			}
+			if r.cas.puts > 0 || !sameBlobs(r.cas.blobs, expectedBlobs) {
+				res.monitor = abbreviate(line) + " changed the Content Addressable Storage"
+				return
+			}
+		case "cwalk":
+			if len(w) != 3 {
+				continue
+			}
+			threads, e1 := strconv.Atoi(w[1])
+			wseed, e2 := strconv.Atoi(w[2])
+			if e1 != nil || e2 != nil || threads < 1 || threads > 8 {
+				continue
+			}
+			for k := range r.cas.failing {
+				delete(r.cas.failing, k)
+			}
+			paths := refDirPaths(ref, 60)
+			answers, dis := r.concurrentWalk(paths, threads, uint64(wseed))
+			res.steps += len(paths) * threads
+			res.flags["concurrent-walk"]++
+			if dis != "" {
+				res.monitor = dis
+				return
+			}
+			for i, p := range paths {
+				want := refExec(ref, r.cas.blobs, r.hashLen, "readdir", toks(p))
+				if answers[i] != want {
+					res.monitor = fmt.Sprintf("concurrent exploration: readdir %q returned %q; the tree named by the root digest demands %q", strings.Join(p, "/"), answers[i], want)
+					return
+				}
+			}
+			// the model explores the same directories one after the other
+			for i, p := range paths {
+				if !ask(opLine("readdir", nil, toks(p)...), answers[i]) {
+					return
+				}
 			}
 		case "newroot":
 			r.newRoot()
@@ -387,4 +456,34 @@ func printable(s string) bool {
 		}
 	}
 	return true
+}
+
+// refDirPaths lists the directory paths of the reference breadth first (sorted
+// names), not descending below directories that cannot be loaded.
+func refDirPaths(root *refNode, limit int) [][]string {
+	type item struct {
+		p []string
+		n *refNode
+	}
+	out := [][]string{}
+	queue := []item{{nil, root}}
+	for len(queue) > 0 && len(out) < limit {
+		it := queue[0]
+		queue = queue[1:]
+		out = append(out, it.p)
+		if it.n.bad != "" {
+			continue
+		}
+		names := make([]string, 0, len(it.n.children))
+		for k := range it.n.children {
+			names = append(names, k)
+		}
+		sortStrings(names)
+		for _, k := range names {
+			if c := it.n.children[k]; c.kind == "dir" {
+				queue = append(queue, item{append(append([]string(nil), it.p...), k), c})
+			}
+		}
+	}
+	return out
 }
